@@ -184,6 +184,18 @@ pub fn judge(ctx: &mut Ctx, ast: &RangeAst, extra_probes: &[MV], stratum_class: 
             );
             return;
         }
+        // a prerelease that the *documented* comparators of this alternative admit (bounds met as
+        // written, a written tag on its tuple, both readings agree) must be admitted: otherwise the
+        // tag was lost on the way into the stored bounds. Only this direction is judged here — a
+        // stored bound that is too wide (K1, K4) is C01's matter and does not concern the gate.
+        if v.is_pre() && gate_open(&tags, v) && des.verdict(v) == Verdict::Admit && !got {
+            ctx.violation(
+                &format!("tag-lost/{}/{}", forms, rel),
+                w,
+                format!("range {:?} (stored {}): {} meets the written comparators {} and one of them carries a tag on its tuple, yet it is not admitted", text, r, v.text(), des.text()),
+            );
+            return;
+        }
         // build metadata on the version never matters
         for bt in ["x", "7.y"] {
             let vb = v.no_build().with_build_s(bt);
